@@ -120,8 +120,12 @@ func (a *EpochBitmapAllocator) Allocate(ctx context.Context, subscriberID string
 			continue
 		}
 
+		// A slot without an owner is free whatever its stored generation says:
+		// the 2-bit generation of a released, expired or never-used slot aliases
+		// an active generation again every 4 epochs.
+		_, owned := a.ipToSubscriber[idx]
 		gen := a.getGeneration(idx)
-		if a.isGenerationFree(gen, threshold) {
+		if !owned || a.isGenerationFree(gen, threshold) {
 			// Found free slot - allocate it
 			a.setGeneration(idx, a.currentGeneration())
 			a.subscribers[subscriberID] = idx
@@ -236,6 +240,11 @@ func (a *EpochBitmapAllocator) AdvanceEpoch() uint64 {
 		if a.isGenerationFree(gen, threshold) {
 			delete(a.subscribers, subscriberID)
 			delete(a.ipToSubscriber, idx)
+
+			// Reuse expired slots first, as Release does
+			if idx < a.nextFreeHint {
+				a.nextFreeHint = idx
+			}
 		}
 	}
 
@@ -257,7 +266,7 @@ func (a *EpochBitmapAllocator) Stats() (allocated, total uint64, utilization flo
 	// Count active allocations (not expired)
 	threshold := a.freeThreshold()
 	active := uint64(0)
-	for idx := uint64(1); idx < a.totalIPs-1; idx++ {
+	for idx := range a.ipToSubscriber {
 		gen := a.getGeneration(idx)
 		if !a.isGenerationFree(gen, threshold) {
 			active++
